@@ -111,6 +111,8 @@ def expand(item, seed):
                 spec = [{"fin": 1, "op": 9, "hex": "aa"}, p, {"fin": 1, "op": 10, "hex": "bb"}]
             for api in ("recv", "recv_data_ctrl"):
                 yield {"frames": spec, "api": api, "sizes": [], "accept": [1, 2, 3], "accept_cyclic": True, "seed": 1}
+                # the payloads are arbitrary bytes (most are not UTF-8): also with the library's trace logging switched on
+                yield {"frames": spec, "api": api, "sizes": [], "accept": [], "accept_cyclic": False, "seed": 1, "logtrace": True}
     else:
         for i in range(item["start"], item["start"] + item["count"]):
             yield gen(random.Random(derive_seed(seed, ID, i)))
@@ -252,6 +254,7 @@ def run(sc, choices=None):
     if sc.get("prior"):
         cfg["prior"] = dict(sc["prior"])  # the object was used before: an earlier connection was lost mid-frame / mid-message
     cfg["no_multithread"] = bool(sc.get("no_multithread"))
+    cfg["logtrace"] = bool(sc.get("logtrace"))
     out = run_recv(int(sc.get("seed", 1)), stream, cfg, res, side=side, policy=sc.get("policy") if sender is not None else None,
                    choices=choices)
     w = out["world"]
@@ -371,6 +374,8 @@ def gen(rng):
         sc["prior"] = pr
     if rng.random() < 0.1 and not sc.get("sender"):
         sc["no_multithread"] = True  # WebSocket(enable_multithread=False): the no-op lock stand-in (one thread only)
+    if rng.random() < 0.15:
+        sc["logtrace"] = True  # enableTrace(True): frames are formatted for the log on their way
     return sc
 
 
